@@ -334,6 +334,28 @@ def run(ctx):
     ub, ur = get_method(um, 'process_bind_param'), get_method(um, 'process_result_value')
     okb = any(isinstance(n, ast.BinOp) and isinstance(n.op, ast.BitOr) and 'value' in U(n) for n in walk_local(ub))
     okr = any(isinstance(n, ast.For) and (dotted(n.iter) or '').endswith('CryptographicUsageMask') for n in walk_local(ur)) and any(isinstance(n, ast.BinOp) and isinstance(n.op, ast.BitAnd) for n in walk_local(ur))
+    # exact inverse: the only value process_result_value returns is the list filled by append(<loop variable>) under `<loop variable>.value & value`
+    rg_ = CFG(ur)
+    exact = True
+    rets_ = [n.stmt for n in rg_.nodes if n.kind == 'stmt' and isinstance(n.stmt, ast.Return)]
+    rnames = set(r.value.id for r in rets_ if isinstance(r.value, ast.Name))
+    if len(rnames) != 1 or any(not isinstance(r.value, ast.Name) for r in rets_):
+        exact = False
+    else:
+        lv_ = next(iter(rnames))
+        for n in rg_.nodes:
+            for c in calls_at(n):
+                if isinstance(c.func, ast.Attribute) and isinstance(c.func.value, ast.Name) and c.func.value.id == lv_:
+                    guarded = any(isinstance(t_.stmt, ast.BinOp) and isinstance(t_.stmt.op, ast.BitAnd) and lab_ == 'T' and c.args and isinstance(c.args[0], ast.Name)
+                                  and U(t_.stmt.left) == '%s.value' % c.args[0].id for t_, lab_ in dominating_edges(rg_, n))
+                    if not (c.func.attr == 'append' and guarded):
+                        exact = False
+        for a_ in walk_local(ur):
+            if isinstance(a_, ast.Assign) and any(isinstance(tg, ast.Name) and tg.id == lv_ for tg in a_.targets):
+                if not ((isinstance(a_.value, ast.Call) and call_name(a_.value) == 'list' and not a_.value.args) or (isinstance(a_.value, ast.List) and not a_.value.elts)):
+                    exact = False
+    ctx.check(exact, 'C05.R3', 'UsageMaskType.process_result_value|exactly-the-stored-bits', '%s:%s UsageMaskType.process_result_value' % (SQLT, ur.lineno),
+              'returns exactly the members whose bit is set in the stored integer', 'the decoded usage mask is not exactly the set of members whose bit is set in the stored integer (another return value, an unguarded append, or a pre-filled list): the mask reported and enforced differs from the one stored')
     ctx.check(okb and okr, 'C05.R3', 'UsageMaskType|or-and-enumerate', '%s:%s UsageMaskType' % (SQLT, um.lineno), 'bind ORs member values; result enumerates CryptographicUsageMask with &', 'the mask decorator does not OR on bind / enumerate the same enum on result')
 
     # ---------------- R4 attribute maps agree
@@ -506,6 +528,32 @@ def run(ctx):
     ctx.count('pie_columns', n_cols, 30)
     if not any(f.rule == 'C05.R9' for f in ctx.findings):
         ctx.ok('C05.R9', 'kmip/pie/objects.py, kmip/pie/sqltypes.py', 'all %d columns use exact types' % n_cols)
+    # ---------------- R10 flag sets are combined with bitwise OR
+    ctx.rule('C05.R10', 'wherever a usage mask integer is built from a collection of CryptographicUsageMask flags it is accumulated with | (idempotent), never with + or sum(): a flag listed twice must not carry into the next bit')
+    from ..astutil import all_functions as _allf
+    n_or = 0
+    for rel in src.modules('kmip'):
+        t10 = src.tree(rel)
+        for qn, fn10, cls10 in _allf(t10):
+            names10 = set(x.id for x in walk_local(fn10) if isinstance(x, ast.Name))
+            if 'mask' not in qn.lower() and not any('mask' in nm.lower() for nm in names10):
+                continue
+            for x in walk_local(fn10):
+                val_operand = lambda e: any(isinstance(y, ast.Attribute) and y.attr == 'value' for y in ast.walk(e))
+                if isinstance(x, ast.AugAssign) and isinstance(x.op, ast.BitOr) and val_operand(x.value):
+                    n_or += 1
+                if isinstance(x, ast.BinOp) and isinstance(x.op, ast.BitOr) and val_operand(x):
+                    n_or += 1
+                bad10 = None
+                if isinstance(x, ast.Call) and call_name(x) == 'sum' and x.args and val_operand(x.args[0]):
+                    bad10 = 'sum(...) over flag values'
+                if isinstance(x, ast.AugAssign) and isinstance(x.op, ast.Add) and val_operand(x.value) and 'mask' in U(x.target).lower():
+                    bad10 = '+= of a flag value'
+                if bad10:
+                    ctx.fail('C05.R10', '%s|%s' % (qn, bad10), '%s:%s %s' % (rel, x.lineno, qn), 'the mask is accumulated by %s: a repeated flag carries into a neighbouring bit (two ENCRYPT flags give SIGN...), so the stored mask differs from the one supplied' % bad10)
+    ctx.count('bitwise_or_mask_accumulations', n_or, 1)
+    if not any(f.rule == 'C05.R10' for f in ctx.findings):
+        ctx.ok('C05.R10', 'kmip/**', '%d mask accumulations use |' % n_or)
     # ---------------- R7 operations that only read leave the loaded instance untouched
     ctx.rule('C05.R7', 'only Activate, Revoke, Destroy and the attribute operations (Set/Modify/DeleteAttribute) modify an object loaded from the store; every other handler (Get, GetAttributes, GetAttributeList, Locate, the cryptographic-use operations, DeriveKey on its base objects, ...) leaves the loaded instance untouched - a dirty instance is written out by the next commit in the same batch')
     WRITERS = {'_process_activate', '_process_revoke', '_process_destroy', '_process_set_attribute', '_process_modify_attribute', '_process_delete_attribute'}
